@@ -82,7 +82,7 @@ func runC03(rc *RunCtx) {
 	if T.Chance("cfg.invstatus.amb", 1, 4) {
 		ln.AmbiguousPct = 15
 	}
-	rc.S.Policy = T.Choose("cfg.policy", 2)
+	rc.S.Policy = T.Choose("cfg.policy", 3)
 	mpp := T.Chance("cfg.mpp", 1, 2)
 	if v, ok := rc.Spec.Params["mpp"]; ok {
 		mpp = v == 1
